@@ -193,7 +193,16 @@ func TestC16(t *testing.T) {
 				}
 			}
 			if c.Dst != nil {
-				c.Dst.L = Layout{Root: "cmraw"}
+				// the destination's data order is independent of the operands'
+				c.Dst.L = Layout{Root: rapid.SampledFrom([]string{"cmraw", "cmraw", "rm"}).Draw(rt, "dstorder")}
+				if rapid.IntRange(0, 4).Draw(rt, "rmops") == 0 {
+					// row-major operands into a column-major destination
+					c.Dst.L = Layout{Root: "cmraw"}
+					c.A.L = Layout{Root: "rm"}
+					if c.B != nil {
+						c.B.L = Layout{Root: "rm"}
+					}
+				}
 			}
 			if c.Op == "Outer" && (len(c.A.Shape) == 2 || len(c.B.Shape) == 2) {
 				rec.Class("excluded:F51")
